@@ -8,8 +8,8 @@ props = {json.loads(l)["id"]: json.loads(l) for l in open(H + "/properties.jsonl
 matrix = json.load(open(H + "/seeded/MATRIX.json")) if os.path.exists(H + "/seeded/MATRIX.json") else {}
 kf = json.load(open(H + "/known_findings.json"))
 out = []
-out.append("### 6.1 Checks as built (quick tier, seed 1, this machine) and sensitivity\n")
-out.append("| id | engine | parts | quick evaluations | distinct non-trivial | exhaustive parts | catalogue mutants | seeded change (independent agent) |")
+out.append("### 6.1 Checks as built (last run on this machine, seed 1) and sensitivity\n")
+out.append("| id | engine | parts | evaluations (tier of the last run) | distinct non-trivial | exhaustive parts | catalogue mutants | seeded change (independent agent) |")
 out.append("|---|---|---|---|---|---|---|---|")
 for c in man["checks"]:
     pid = c["property_id"]
